@@ -146,6 +146,26 @@ def composition_clause(model, rep, funcs):
         ok = bodies == ["self(other(scale), scale)", "self(other(x, scale), scale)"] and Matcher(f).all_of([
             "if isinstance(other, ImageProvider):\n    $fn = lambda scale: self(other(scale), scale)\nelif isinstance(other, ImageConverter):\n"
             "    $fn = lambda x, scale: self(other(x, scale), scale)\nelse:\n    ...", "other.__class__($fn)"])[0]
+        if not ok:
+            # the same rule by arity: the one-argument lambda (provider case) and the two-argument lambda (converter case) nest self around other, each is
+            # what other.__class__(...) wraps, the provider lambda lives where other is known to be an ImageProvider
+            MC_ = Matcher(f)
+            one = [l for l in lam if len(l.args.args) == 1]
+            two = [l for l in lam if len(l.args.args) == 2]
+            good = len(one) == 1 and len(two) == 1 and len(lam) == 2
+            if good:
+                s1, (x2, s2) = one[0].args.args[0].arg, [a_.arg for a_ in two[0].args.args]
+                good = norm_src(one[0].body) == f"self(other({s1}), {s1})" and norm_src(two[0].body) == f"self(other({x2}, {s2}), {s2})"
+            if good:
+                wraps = MC_.find("other.__class__($$l)")
+                wrapped = {ast.dump(MC_.expr(b_["l"][1])) for _, b_ in wraps}
+                good = ast.dump(one[0]) in wrapped and ast.dump(two[0]) in wrapped
+            if good:
+                # dispatch: an `isinstance(other, ImageProvider)` test governs the provider lambda
+                prov_if = [n for n in ast.walk(f.node) if isinstance(n, ast.If) and norm_src(n.test) == "isinstance(other, ImageProvider)" and
+                           any(x is one[0] for st in n.body for x in ast.walk(st)) and not any(x is two[0] for st in n.body for x in ast.walk(st))]
+                good = bool(prov_if) and bool(MC_.find("raise TypeError($$m)"))
+            ok = bool(good)
         rep.ob("COMP", f.anchor, "(a @ b)(args) == a(b(args), scale): inner pipeline first, result has the inner pipeline's kind", ok, f"{bodies}", node=f.node, fn=f,
                clause="2 composition", stmt="def compose")
         raises = any(isinstance(n, ast.Raise) for n in ast.walk(f.node))
